@@ -121,3 +121,18 @@ def kf_zone_nonascii(f):
         return False
     rest = s.replace("[" + host + "]", "", 1)
     return rest.isascii() and rest != s
+
+
+@recogniser("KF-QUERY-REPLACE", "C06")
+def kf_query_replace(f):
+    """url.query decodes with the stdlib parse_qsl (errors='replace'): undecodable escape bytes become U+FFFD instead of staying verbatim"""
+    if f["clause"] != "query items are not the percent-decoding of the raw pairs":
+        return False
+    obs = f["observed"]
+    items = [tuple(p) for p in obs["items"]]
+    model = [tuple(p) for p in obs["errors_replace_model"]]
+    if items != model or items == [tuple(p) for p in f["expected"]]:
+        return False
+    raw = obs["raw"]
+    undecodable = any(t[0] == "esc" and t[1] >= 0x80 for t in ref.tokens(ref.unquote(raw)))
+    return undecodable and any("�" in k or "�" in v for k, v in items)
